@@ -29,7 +29,7 @@ CONTRACTS.update({
  'EFLRSet.register_item': dict(
     props=['C20', 'C07'], self_class='ZoneSet', self_fields=LIVE_SET['fields'],
     params={'child': 'oneof[obj:ZoneItemT,obj:Attribute]'}, returns='none',
-    modifies=['self._eflr_item_list'],
+    modifies=['self._eflr_item_list'], exc_modifies=[],
     raises={'TypeError': 'not isinstance(child, self.item_type)'},
     ensures=[('appended-last', 'self._eflr_item_list == old(self._eflr_item_list) + [child]')],
     exc_ensures=[('rejected-child-not-registered', 'self._eflr_item_list == old(self._eflr_item_list)')]),
@@ -44,6 +44,9 @@ CONTRACTS.update({
              ('name-kept', 'self.name == name'), ('origin-kept', 'self._origin_reference == origin_reference'),
              ('copy-number-counts-earlier-same-named-objects', 'self._copy_number == len(list(filter(lambda o: o.name == self.name and o is not self, old(' + ITEMS + '))))'),
              ('only-compatible-names-in-the-mode', f'implies({FLAG}, hc_name_ok(self.name))')],
+    # frame (C20): the constructor writes the object under construction, the back-pointer of its own attributes and the item list of
+    # its set - nothing else; when it rejects the call only the (discarded) object itself was written
+    modifies=['self.*', 'self.*.parent_eflr', 'parent._eflr_item_list'], exc_modifies=['self.*', 'self.*.parent_eflr'],
     exc_ensures=[('rejected-call-leaves-the-set-unchanged', UNCHANGED)]),
 })
 
@@ -63,4 +66,5 @@ CONTRACTS['ChannelItem.__init__[verified]'] = dict(
     may_raise=['ValueError', 'AnyException'],
     ensures=[('registered', f'{ITEMS} == old({ITEMS}) + [self]'), ('dataset-name-kept', 'self._dataset_name == dataset_name'),
              ('cast-dtype-kept', 'self._cast_dtype is cast_dtype')],
+    modifies=['self.*', 'self.*.parent_eflr', 'parent._eflr_item_list'], exc_modifies=['self.*', 'self.*.parent_eflr'],
     exc_ensures=[('rejected-channel-leaves-the-set-unchanged', UNCHANGED)])
